@@ -31,6 +31,7 @@ import (
 	"crypto/x509"
 	"crypto/x509/pkix"
 	"bufio"
+	"bytes"
 	"errors"
 	"flag"
 	"fmt"
@@ -60,7 +61,8 @@ import (
 const (
 	ntpPort     = 21123
 	relayPort   = 22123
-	waitLong    = 30 * time.Second
+	waitLong    = 60 * time.Second // hard limit for anything that waits on the implementation: only a genuine hang exceeds it
+	frontPort   = 24123
 	sentinelSec = 0x5E4711C0
 )
 
@@ -82,6 +84,8 @@ type env struct {
 	srvAddr  *net.UDPAddr
 	seq      uint32
 	log      *slog.Logger
+	front    *keFront
+	srvTLS   *tls.Config
 	aged     time.Duration       // how much older the provider has been made so far
 	keys     map[uint16]keyInfo  // every server key seen as the current one: value and end of validity
 }
@@ -168,6 +172,7 @@ func newEnv() *env {
 		MinVersion:   tls.VersionTLS13,
 	}
 
+	e.srvTLS = srvTLS
 	server.StartIPServer(ctx, e.log, &net.UDPAddr{IP: e.ip, Port: ntpPort}, 0, e.provider)
 	server.StartSCIONServer(ctx, e.log, "" /* daemon */, &net.UDPAddr{IP: e.ip, Port: scionPort}, 0, e.provider)
 	// the key exchange names the relay's port as the NTP port
@@ -196,6 +201,7 @@ func newEnv() *env {
 		}
 		time.Sleep(50 * time.Millisecond)
 	}
+	e.front = newKeFront(e)
 	return e
 }
 
@@ -226,7 +232,7 @@ func (e *env) newClient() *cl {
 		x.ke.Add(1)
 		return nil
 	}
-	f.Port = strconv.Itoa(ntske.ServerPortIP)
+	f.Port = strconv.Itoa(frontPort) // the harness's front of the real NTS-KE server
 	f.Log = e.log
 	x.local = &net.UDPAddr{IP: e.ip}
 	x.remote = &net.UDPAddr{IP: e.ip, Port: relayPort}
@@ -326,6 +332,7 @@ const (
 	actKeFail    = 6 // a key exchange, if one is needed, fails; otherwise as actDeliver
 	actDupReq    = 7 // the request reaches the server twice; the first reply passes
 	actForge     = 8 // a forged datagram with cleartext cookie fields arrives before the genuine reply
+	actKeBadSrv  = 9 // a key exchange, if one is needed, succeeds but names a server that is not an IP address; otherwise as actDeliver
 )
 
 type step struct {
@@ -342,6 +349,7 @@ type stepObs struct {
 	openable  bool
 	curKey    int64    // the provider's current key id right after the reply (-1: not asked)
 	forged    [][]byte // cookies of a forged datagram delivered to the client
+	noSend    int      // nothing sent although the fetcher holds data: 1 the call's deadline passed first, 2 the server named is not an IP address, 3 unexplained
 	forwarded int
 	replies   [][]byte
 	repNonce  []byte
@@ -381,11 +389,31 @@ func (e *env) runStep(x *cl, st step, old *[][]byte) stepObs {
 		e.provider.VerifAge(time.Duration(st.ageNs))
 		e.aged += time.Duration(st.ageNs)
 	}
-	ke0 := x.ke.Load()
-	x.keFail.Store(st.action == actKeFail)
+	d0 := x.c.Auth.NTSKEFetcher.VerifData()
+	// how a needed key exchange goes
+	x.keFail.Store(false)
+	e.front.mode.Store(0)
+	switch st.action {
+	case actKeFail:
+		m := st.arg % 6
+		if m == 0 {
+			x.keFail.Store(true) // the client refuses the server's certificate
+		} else {
+			e.front.mode.Store(m) // the peer misbehaves
+			e.front.arg.Store(st.arg / 6)
+		}
+	case actKeBadSrv:
+		e.front.mode.Store(6)
+	}
+	defer e.front.mode.Store(0)
 	timeout := waitLong
 	if st.action == actTimeout {
-		timeout = 250 * time.Millisecond
+		// the only wall-clock allowance: long enough for the request to leave even on a loaded
+		// machine; should it pass before the request left, that is recorded (noSend 1), not judged
+		timeout = 1500 * time.Millisecond
+		if v := os.Getenv("C11_TIMEOUT_NS"); v != "" { // to try the "deadline passed before the request left" path
+			timeout = time.Duration(lib.ParseI(v))
+		}
 	}
 	ctx, cancel := context.WithTimeout(context.Background(), timeout)
 	defer cancel()
@@ -427,7 +455,7 @@ func (e *env) runStep(x *cl, st step, old *[][]byte) stepObs {
 			}
 		}
 		act := st.action
-		if act == actKeFail {
+		if act == actKeFail || act == actKeBadSrv {
 			act = actDeliver
 		}
 		if act == actReplay && len(*old) == 0 {
@@ -537,8 +565,21 @@ func (e *env) runStep(x *cl, st step, old *[][]byte) stepObs {
 		}
 	}
 	o.clientErr = cerr != nil
-	o.keDelta = x.ke.Load() - ke0
 	d := x.c.Auth.NTSKEFetcher.VerifData()
+	// a key exchange completed iff the fetcher holds new session keys
+	if len(d.C2sKey) > 0 && !bytes.Equal(d.C2sKey, d0.C2sKey) {
+		o.keDelta = 1
+	}
+	if !o.sent && len(d.C2sKey) > 0 {
+		switch {
+		case net.ParseIP(d.Server) == nil:
+			o.noSend = 2
+		case errors.Is(cerr, os.ErrDeadlineExceeded) || errors.Is(cerr, context.DeadlineExceeded):
+			o.noSend = 1
+		default:
+			o.noSend = 3
+		}
+	}
 	o.poolAfter = d.Cookie
 	o.c2s, o.s2c = d.C2sKey, d.S2cKey
 	return o
@@ -562,7 +603,7 @@ func (o *stepObs) String() string {
 		lib.I(int64(o.forwarded)), lib.I(int64(len(o.replies))), rep, lib.B(o.repNonce), lib.B(o.repCT),
 		lib.Bool(o.repAuthOK), lib.B(o.repPlain), lib.L(o.repCookies...),
 		lib.Bool(o.intact), lib.Bool(o.clientErr), lib.I(o.keDelta),
-		bl(o.poolAfter), lib.B(o.c2s), lib.B(o.s2c), lib.I(o.curKey), bl(o.forged))
+		bl(o.poolAfter), lib.B(o.c2s), lib.B(o.s2c), lib.I(o.curKey), bl(o.forged), lib.I(int64(o.noSend)))
 }
 
 func parseScript(args string) []step {
@@ -622,6 +663,15 @@ func (e *env) runHist(script []step) (tagstr, args, outstr string) {
 		}
 		if len(o.forged) > 0 {
 			tags["forged"] = true
+		}
+		if st.action == actKeFail && !o.sent && o.noSend == 0 {
+			tags[fmt.Sprintf("kefail-mode%d", st.arg%6)] = true
+			if i > 0 {
+				tags["kefail-after-data"] = true
+			}
+		}
+		if o.noSend != 0 {
+			tags[fmt.Sprintf("nosend%d", o.noSend)] = true
 		}
 		if len(o.repCookies) >= 7 {
 			tags["reply-capped"] = true
